@@ -89,6 +89,8 @@ REGIONS = [
     ('block-comment', '/*', '*/', (), ('*/',)),
     ('line-comment', '--', '\n', ('\n',), ('\n', '\r')),
     ('parenthesis', '(', ')', ("'", '"', '$', '(', ')', '`', '--', '/*', '-', '/', '*'), ()),
+    # a T-SQL bracketed name (a quoted identifier; not behind a word, ']' or ')', where brackets are a subscript)
+    ('bracketed-name', '[', ']', ('(', ')', '--', '/*', '-', '/', '*', '\n'), ('[', ']')),
 ]
 HOSTS = [
     # (name, template with {R}, index of the statement holding the region, k statements)
@@ -100,6 +102,10 @@ HOSTS = [
     ('after-case', 'select case when a then 1 end, {R} from t; select 2', 2),
     ('tight-after-operator', 'select 1+{R}; select 2', 2),
     ('tight-after-name', 'select a{R}; select 2', 2),
+    # the region's closer glued to what follows
+    ('glued-before-word', 'select {R}x from t; select 2', 2),
+    ('glued-before-keyword', 'select {R}AS c; select 2', 2),
+    ('glued-before-number', 'select 1 from t where a = {R}1; select 2', 2),
 ]
 
 
@@ -178,8 +184,10 @@ def run(tier, seed):
             for hi, host in enumerate(HOSTS):
                 if tier == 'quick' and len(region) > 7 and hi % 2:
                     continue          # longest bodies: every second host position in the quick tier
-                if rname in ('dollar', 'dollar-tag') and host[0] == 'tight-after-name':
+                if rname in ('dollar', 'dollar-tag', 'bracketed-name') and host[0] == 'tight-after-name':
                     continue      # '$' directly after a word character continues the word (documented look-behind)
+                if rname == 'bracketed-name' and len(region) == 2:
+                    continue      # '[]' is no name
                 text, bad = check_region(sp, host, region)
                 acc.case(text, ';' in region or 'BEGIN' in region or 'END' in region, outcome=rname,
                          sample={'host': host[0], 'text': text})
